@@ -4,8 +4,9 @@ C15 — property theorems (statements only; helper lemmas live in `Proofs/C15*.l
 What is proved here is about the executable model `Mahotas.C15` that the native driver runs and
 that the correspondence check compares with the real `mahotas.thin` / `mahotas.euler`, and about
 the tables the translator extracts from `_thin.cpp` and `euler.py` on every run.
-Not proved (validated by the check only): that Gray's bit-quad sum equals components − holes
-(exhaustive small scope + random), and the Graham scan (`hullOK` is evaluated on the real output).
+Not proved in general (validated by the check only): that Gray's bit-quad sum equals components −
+holes (exhaustive small scope + random); proved for pixels, rectangles, rings and far-apart unions
+of them, with the invariances of the sum (`C15_euler_*`, round 3, end of this file).
 -/
 import Mahotas.Proofs.C15
 import Mahotas.Proofs.C15Thin
@@ -13,6 +14,7 @@ import Mahotas.Proofs.C15Model
 import Mahotas.Proofs.C15Idem
 import Mahotas.Proofs.C15Hull
 import Mahotas.Proofs.C15Graham
+import Mahotas.Proofs.C15Euler
 open Mahotas Mahotas.C15
 
 /-- **thin ⊆ input.** Every pixel set in the model of `mahotas.thin` (crop to the bounding box, zero
@@ -136,3 +138,193 @@ example : ∃ x : Px, delT e0 {p | (p.1 = 0 ∨ p.1 = 1) ∧ -1 ≤ p.2 ∧ p.2 
     rcases ht with rfl | rfl | rfl | rfl | rfl | rfl <;> simp⟩
 
 example : grayQuad true true false false true = -2 ∧ grayQuad false true false false true = 2 := by decide
+
+/-! ### Round 3: exact identities of the Euler model's bit-quad sum
+
+Gray's identity (bit-quad sum = components − holes) is not proved in general; the theorems below
+prove what supports it, about `eulerModel4` itself (generated tables, every image size): the value
+on the basic shapes (one pixel, filled rectangle: one component, no hole → 4·1; rectangular ring:
+one component, one hole → 4·0), the invariances, and additivity over far-apart parts — so that
+the identity holds for every image that is a far-apart union of translated/transposed rectangles
+and rings. -/
+
+/-- **A single pixel has Euler number 1.** An image of any size whose only set pixel is `(y0, x0)`
+(necessarily inside the image: reads outside are `false`) has `eulerModel4 = 4` (= 4 · 1) for
+8- and for 4-connectivity. -/
+theorem C15_euler_single_pixel (b : Bin) (conn8 : Bool) (y0 x0 : Int)
+    (h : ∀ y x, b.get y x = true ↔ (y = y0 ∧ x = x0)) : eulerModel4 b conn8 = 4 := by
+  apply euler_rect b conn8 y0 1 x0 1 (by omega) (by omega)
+  intro y x
+  rw [Bool.eq_iff_iff, h]
+  simp only [rectFn, ivl, Bool.and_eq_true, decide_eq_true_eq]
+  omega
+
+/-- **A filled rectangle has Euler number 1.** An image of any size whose set pixels are exactly
+the `a × b` rectangle `[y0, y0+a) × [x0, x0+b)` with `a, b ≥ 1` (necessarily inside the image) has
+`eulerModel4 = 4` for both connectivities: only the four corner windows have non-zero weight. -/
+theorem C15_euler_rectangle (bi : Bin) (conn8 : Bool) (y0 x0 a b : Int) (ha : 1 ≤ a) (hb : 1 ≤ b)
+    (h : ∀ y x, bi.get y x = true ↔ (y0 ≤ y ∧ y < y0 + a ∧ x0 ≤ x ∧ x < x0 + b)) :
+    eulerModel4 bi conn8 = 4 := by
+  apply euler_rect bi conn8 y0 a x0 b ha hb
+  intro y x
+  rw [Bool.eq_iff_iff, h]
+  simp only [rectFn, ivl, Bool.and_eq_true, decide_eq_true_eq]
+  omega
+
+/-- **A rectangular ring has Euler number 0.** An image of any size whose set pixels are exactly
+the boundary pixels of the rectangle `[y0, y0+a) × [x0, x0+b)` with `a, b ≥ 3` (a ring of thickness
+one around a hole of `(a−2) × (b−2)` pixels) has `eulerModel4 = 0` for both connectivities (one
+component, one hole): four outer corner windows of weight +1, four inner corner windows with three
+pixels of weight −1. -/
+theorem C15_euler_frame (bi : Bin) (conn8 : Bool) (y0 x0 a b : Int) (ha : 3 ≤ a) (hb : 3 ≤ b)
+    (h : ∀ y x, bi.get y x = true ↔ (y0 ≤ y ∧ y < y0 + a ∧ x0 ≤ x ∧ x < x0 + b ∧
+      (y = y0 ∨ y = y0 + a - 1 ∨ x = x0 ∨ x = x0 + b - 1))) :
+    eulerModel4 bi conn8 = 0 := by
+  apply euler_frame bi conn8 y0 a x0 b ha hb
+  intro y x
+  rw [Bool.eq_iff_iff, h]
+  simp only [frameFn, rectFn, ivl, Bool.and_eq_true, Bool.not_eq_true', decide_eq_true_eq,
+    Bool.and_eq_false_iff, decide_eq_false_iff_not]
+  omega
+
+/-- **Translation invariance.** If `b'` is `b` translated by `(dy, dx)` — possibly onto a canvas
+of another size; since reads outside a canvas are `false`, the hypothesis says that no set pixel is
+lost — then the bit-quad sums agree, for both connectivities. -/
+theorem C15_euler_translation_invariant (b b' : Bin) (conn8 : Bool) (dy dx : Int)
+    (h : ∀ y x, b'.get (y + dy) (x + dx) = b.get y x) : eulerModel4 b' conn8 = eulerModel4 b conn8 :=
+  euler_translate b b' conn8 dy dx h
+
+/-- **Transposition invariance.** If `b'` is the transpose of `b` then the bit-quad sums agree, for
+both connectivities (Gray's weights are symmetric under swapping the two off-diagonal pixels). -/
+theorem C15_euler_transpose_invariant (b b' : Bin) (conn8 : Bool)
+    (h : ∀ y x, b'.get y x = b.get x y) : eulerModel4 b' conn8 = eulerModel4 b conn8 :=
+  euler_transpose b b' conn8 h
+
+/-- **Additivity over far-apart parts.** If `u` is the pixelwise union of `b1` and `b2` (canvases
+of any sizes) and every set pixel of `b1` is at Chebyshev distance ≥ 2 from every set pixel of `b2`
+(they are neither equal nor 8-neighbours, so no 2×2 window meets both), then the bit-quad sum of
+the union is the sum of the two bit-quad sums, for both connectivities. -/
+theorem C15_euler_additive_far_apart (b1 b2 u : Bin) (conn8 : Bool)
+    (hu : ∀ y x, u.get y x = (b1.get y x || b2.get y x))
+    (hfar : ∀ y1 x1 y2 x2, b1.get y1 x1 = true → b2.get y2 x2 = true →
+      (y1 + 1 < y2 ∨ y2 + 1 < y1 ∨ x1 + 1 < x2 ∨ x2 + 1 < x1)) :
+    eulerModel4 u conn8 = eulerModel4 b1 conn8 + eulerModel4 b2 conn8 := by
+  apply euler_additive b1 b2 u conn8 hu
+  rintro y x ⟨a1, a2⟩
+  obtain ⟨y1, x1, e1, r1, c1⟩ := active_rows b1.get y x a1
+  obtain ⟨y2, x2, e2, r2, c2⟩ := active_rows b2.get y x a2
+  have := hfar y1 x1 y2 x2 e1 e2
+  omega
+
+/-- **Additivity over parts separated by an empty row or column.** If `u` is the pixelwise union
+of `b1` and `b2` (canvases of any sizes) and some row `k` separates them (every set pixel of `b1`
+has row `< k`, every set pixel of `b2` has row `> k`) or some column `k` does, then
+`eulerModel4 u = eulerModel4 b1 + eulerModel4 b2`, for both connectivities. -/
+theorem C15_euler_additive_disjoint (b1 b2 u : Bin) (conn8 : Bool)
+    (hu : ∀ y x, u.get y x = (b1.get y x || b2.get y x))
+    (hsep : (∃ k : Int, (∀ y x, b1.get y x = true → y < k) ∧ (∀ y x, b2.get y x = true → k < y)) ∨
+      (∃ k : Int, (∀ y x, b1.get y x = true → x < k) ∧ (∀ y x, b2.get y x = true → k < x))) :
+    eulerModel4 u conn8 = eulerModel4 b1 conn8 + eulerModel4 b2 conn8 := by
+  apply C15_euler_additive_far_apart b1 b2 u conn8 hu
+  intro y1 x1 y2 x2 e1 e2
+  rcases hsep with ⟨k, h1, h2⟩ | ⟨k, h1, h2⟩
+  · have := h1 y1 x1 e1
+    have := h2 y2 x2 e2
+    omega
+  · have := h1 y1 x1 e1
+    have := h2 y2 x2 e2
+    omega
+
+/-! ### non-vacuity (round 3) -/
+
+example : eulerModel4 (Bin.ofInts 1 1 [1]) true = 4 ∧ eulerModel4 (Bin.ofInts 1 1 [1]) false = 4 := by decide
+example : eulerModel4 (Bin.ofInts 2 2 [1, 1, 1, 1]) true = 4 ∧ eulerModel4 (Bin.ofInts 2 2 [1, 1, 1, 1]) false = 4 := by
+  decide
+example : eulerModel4 (Bin.ofInts 3 3 [1, 1, 1, 1, 0, 1, 1, 1, 1]) true = 0 ∧
+    eulerModel4 (Bin.ofInts 3 3 [1, 1, 1, 1, 0, 1, 1, 1, 1]) false = 0 := by decide
+example : eulerModel4 (Bin.ofInts 1 3 [1, 0, 1]) true = 8 ∧ eulerModel4 (Bin.ofInts 1 3 [1, 0, 1]) false = 8 := by
+  decide
+/-- the far-apart hypothesis is needed: two diagonal neighbours are one 8-component (4) but two
+    4-components (8) -/
+example : eulerModel4 (Bin.ofInts 2 2 [1, 0, 0, 1]) true = 4 ∧ eulerModel4 (Bin.ofInts 2 2 [1, 0, 0, 1]) false = 8 := by
+  decide
+
+/-- the hypotheses are satisfiable: a 3×4 rectangle at (1, 2) inside a 5×7 canvas -/
+example (c : Bool) : eulerModel4 (Bin.tabulate 5 7 fun y x => decide (1 ≤ y ∧ y < 4 ∧ 2 ≤ x ∧ x < 6)) c = 4 :=
+  C15_euler_rectangle _ c 1 2 3 4 (by omega) (by omega) (by
+    intro y x
+    rw [Bin.get_tabulate]
+    simp only [Bool.and_eq_true, decide_eq_true_eq]
+    omega)
+
+/-- a 4×5 ring at (1, 1) inside a 6×7 canvas -/
+example (c : Bool) : eulerModel4 (Bin.tabulate 6 7 fun y x =>
+    decide (1 ≤ y ∧ y < 5 ∧ 1 ≤ x ∧ x < 6 ∧ (y = 1 ∨ y = 4 ∨ x = 1 ∨ x = 5))) c = 0 :=
+  C15_euler_frame _ c 1 1 4 5 (by omega) (by omega) (by
+    intro y x
+    rw [Bin.get_tabulate]
+    simp only [Bool.and_eq_true, decide_eq_true_eq]
+    omega)
+
+/-- one pixel at (2, 3) of a 4×5 canvas -/
+example (c : Bool) : eulerModel4 (Bin.tabulate 4 5 fun y x => decide (y = 2 ∧ x = 3)) c = 4 :=
+  C15_euler_single_pixel _ c 2 3 (by
+    intro y x
+    rw [Bin.get_tabulate]
+    simp only [Bool.and_eq_true, decide_eq_true_eq]
+    omega)
+
+/-- translation onto a canvas of another size, transposition, and a union across an empty column:
+    a rectangle and a ring side by side have bit-quad sum 4 + 0 -/
+example (c : Bool) (f : Int → Int → Bool) :
+    eulerModel4 (Bin.tabulate 9 8 fun y x => f (y - 2) (x - 1) && decide (2 ≤ y ∧ y < 5 ∧ 1 ≤ x ∧ x < 5)) c =
+      eulerModel4 (Bin.tabulate 3 4 f) c :=
+  C15_euler_translation_invariant _ _ c 2 1 (by
+    intro y x
+    rw [Bin.get_tabulate, Bin.get_tabulate]
+    have e1 : y + 2 - 2 = y := by omega
+    have e2 : x + 1 - 1 = x := by omega
+    rw [e1, e2]
+    cases f y x
+    · simp
+    · rw [Bool.eq_iff_iff]
+      simp only [Bool.and_eq_true, decide_eq_true_eq, true_and, and_true]
+      omega)
+
+example (c : Bool) (f : Int → Int → Bool) :
+    eulerModel4 (Bin.tabulate 4 3 fun y x => f x y) c = eulerModel4 (Bin.tabulate 3 4 f) c :=
+  C15_euler_transpose_invariant _ _ c (by
+    intro y x
+    rw [Bin.get_tabulate, Bin.get_tabulate]
+    cases f x y
+    · simp
+    · rw [Bool.eq_iff_iff]
+      simp only [Bool.and_eq_true, decide_eq_true_eq, and_true]
+      omega)
+
+example (c : Bool) :
+    eulerModel4 (Bin.tabulate 3 6 fun y x =>
+      decide (x < 2) || decide (3 ≤ x ∧ (y = 0 ∨ y = 2 ∨ x = 3 ∨ x = 5))) c = 4 + 0 := by
+  rw [C15_euler_additive_disjoint (Bin.tabulate 3 2 fun _ _ => true)
+    (Bin.tabulate 3 6 fun y x => decide (3 ≤ x ∧ (y = 0 ∨ y = 2 ∨ x = 3 ∨ x = 5))) _ c ?_ (Or.inr ⟨2, ?_, ?_⟩)]
+  · congr 1
+    · exact C15_euler_rectangle _ c 0 0 3 2 (by omega) (by omega) (by
+        intro y x
+        rw [Bin.get_tabulate]
+        simp only [Bool.and_eq_true, decide_eq_true_eq, and_true]
+        omega)
+    · exact C15_euler_frame _ c 0 3 3 3 (by omega) (by omega) (by
+        intro y x
+        rw [Bin.get_tabulate]
+        simp only [Bool.and_eq_true, decide_eq_true_eq]
+        omega)
+  · intro y x
+    rw [Bool.eq_iff_iff]
+    simp only [Bin.get_tabulate, Bool.and_eq_true, Bool.or_eq_true, decide_eq_true_eq, and_true]
+    omega
+  · intro y x
+    simp only [Bin.get_tabulate, Bool.and_eq_true, decide_eq_true_eq, and_true]
+    omega
+  · intro y x
+    simp only [Bin.get_tabulate, Bool.and_eq_true, decide_eq_true_eq]
+    omega
